@@ -72,6 +72,8 @@ def run(m: Model, r: Report, tier: str) -> None:
     request_codec_obligations(m, r, "R9", tier)
     from sa.uds_rules import server_rules_index_guarded
     server_rules_index_guarded(m, r, "R2")
+    from sa.uds_rules import session_change_only_into_offered
+    session_change_only_into_offered(m, r, "R2")
     r.rule("R5", "session / security state changes only under guards on the positive response classes ISO names; seed/key sequencing", floor=6)
 
     from sa.uds_rules import iso_tables
@@ -271,7 +273,7 @@ def run(m: Model, r: Report, tier: str) -> None:
     t5 = decision_table(f5)
     r.check([o for _, o, _ in t5] == ["generalReject"], "R3", f"{f5.qualname}#table", f"{t5}", loc=f5.loc)
     for q, want, need in ((f"{SRV}.UDSServer.default_response_if_session_change", "service.DiagnosticSessionControlResponse(request.diagnostic_session_type)",
-                           ["isinstance(request, service.DiagnosticSessionControlRequest)"]),
+                           ["isinstance(request, service.DiagnosticSessionControlRequest)", "request.diagnostic_session_type in self.supported_services"]),
                           (f"{SRV}.UDSServer.default_response_if_tester_present", "service.TesterPresentResponse()", ["isinstance(request, service.TesterPresentRequest)"]),
                           (f"{SRV}.UDSServer.default_response_if_session_read", "service.ReadDataByIdentifierResponse(request.data_identifier, to_bytes(self.state.session, 1))",
                            ["isinstance(request, service.ReadDataByIdentifierRequest)", "request.data_identifier == DataIdentifier.ActiveDiagnosticSessionDataIdentifier"])):
@@ -279,7 +281,7 @@ def run(m: Model, r: Report, tier: str) -> None:
         tx = decision_table(fx)
         outs = {full for _, o, full in tx}
         r.check(want in outs and outs <= {want, "None"}, "R3", f"{q}#table", f"outcomes {sorted(outs)}", loc=fx.loc)
-        rows_pos = [({c for c, v in conds if v}, {c for c, v in conds if not v}) for conds, o, full in tx if full == want]
+        rows_pos = [({c2 for c, v in conds if v for c2 in c.split(" and ")}, {c for c, v in conds if not v}) for conds, o, full in tx if full == want]
         r.check(bool(rows_pos) and all(tset == {_ct(x) for x in need} and not fset for tset, fset in rows_pos), "R3", f"{q}#condition",
                 f"the positive default answer is given under {[(sorted(t), sorted(f_)) for t, f_ in rows_pos]}; expected exactly when {need}", loc=fx.loc)
 
